@@ -1,0 +1,35 @@
+//! Named pause points for forcing interleavings from a test harness.
+//!
+//! A pause point is a call `pause::point("name")` placed (under `cfg(iroh_verif)`)
+//! inside library code.  It does nothing unless the *current thread* installed a
+//! callback with [`set`]; the harness installs, in every worker thread it spawns, a
+//! callback that reports the point over a channel and blocks until it is told to go on.
+
+use std::cell::RefCell;
+
+/// Callback invoked with the name of every pause point the current thread reaches.
+pub type PauseFn = Box<dyn FnMut(&'static str)>;
+
+thread_local! {
+    static PAUSE: RefCell<Option<PauseFn>> = const { RefCell::new(None) };
+}
+
+/// Installs (or removes) the pause callback of the current thread.
+pub fn set(f: Option<PauseFn>) {
+    PAUSE.with(|p| *p.borrow_mut() = f);
+}
+
+/// A pause point: no-op unless the current thread installed a callback.
+pub fn point(name: &'static str) {
+    // The callback is taken out while it runs, so a nested pause point is a no-op.
+    let f = PAUSE.with(|p| p.borrow_mut().take());
+    if let Some(mut f) = f {
+        f(name);
+        PAUSE.with(|p| {
+            let mut slot = p.borrow_mut();
+            if slot.is_none() {
+                *slot = Some(f);
+            }
+        });
+    }
+}
